@@ -864,9 +864,23 @@ func ruleOutput(c *Ctx) {
 			fn := host
 			// keyed by what is handed to which descriptor (not by the function, which a refactoring may split):
 			// hand-overs to a child the interpreter waits for are a class of their own
-			key := fmt.Sprintf("child-writer:%s<-%s", f.Name(), src)
+			// the field is named by its role: a field that is assigned Config.Output is "output" under any name
+			role := src
+			if r := configRoleOfField(c, src); r != "" {
+				role = r
+			}
+			// the interpreter's own buffer around the standard output is never handed to a child at all: os/exec copies
+			// the child's output into it from another goroutine, and when that copy fails (a background process keeps
+			// the pipe open past WaitDelay) the error sticks to the buffer - everything printed afterwards is lost
+			if f.Name() == "Stdout" {
+				own := fieldHoldsOwnBuffer(c, src)
+				c.check(own == token.NoPos, fmt.Sprintf("child-writer:own-buffer:%s#%d", f.Name(), cwIdx["own:"+f.Name()]+1), posOr(own, in.Pos()), "what a child gets as its standard output is never a buffer the interpreter made for itself",
+					fmt.Sprintf("%s hands p.%s to a child process, a field that can hold the buffered writer the interpreter builds around os.Stdout: the child's output is copied into that buffer concurrently with the program's own prints, and a command that leaves a background process behind (system(\"sleep 1 &\")) makes the copy fail with an error that sticks to the buffer - all later output of the program is lost", fnKey(host), src))
+				cwIdx["own:"+f.Name()]++
+			}
+			key := fmt.Sprintf("child-writer:%s<-%s", f.Name(), role)
 			if waits {
-				key = fmt.Sprintf("child-writer-waited:%s<-%s", f.Name(), src)
+				key = fmt.Sprintf("child-writer-waited:%s<-%s", f.Name(), role)
 			}
 			cwIdx[key]++
 			if cwIdx[key] > 1 {
@@ -878,7 +892,7 @@ func ruleOutput(c *Ctx) {
 			case src == "errorOutput":
 				c.ok(key, in.Pos(), "standard error is written by the interpreter only through printErrorf, unbuffered in the default configuration; tolerated")
 			default:
-				c.bad(key, in.Pos(), "%s hands p.%s (by default a *bufio.Writer, not safe for concurrent use) to a child process that keeps running after the call: os/exec copies the child's output into it from another goroutine while the interpreter keeps printing to it - a data race that can lose or corrupt output", fnKey(fn), src)
+				c.bad(key, in.Pos(), "%s hands p.%s (the caller's Config.Output - a bytes.Buffer or bufio.Writer, say, not safe for concurrent use) to a child process that keeps running after the call: unless it is an *os.File, os/exec copies the child's output into it from another goroutine while the interpreter keeps printing to it - a data race that can lose or corrupt output", fnKey(fn), src)
 			}
 			}
 		})
@@ -1369,4 +1383,57 @@ func closeStatus(c *Ctx) {
 			fnKey(fn)+" stores something other than the status the wait returned into the stream's status field after waiting for the command (or never stores it): close() then reports a made-up status - for example -1 whenever the final flush met a closed pipe - instead of the command's exit status")
 	}
 	c.atLeast("functions that wait for a command and keep its status", n, 1)
+}
+
+// configRoleOfField: the interpreter field is assigned Config.Output (role "output") or Config.Error ("errorOutput").
+func configRoleOfField(c *Ctx, name string) string {
+	role := ""
+	for _, fn := range c.srcFuncs("interp") {
+		allInstrs(fn, func(in ssa.Instruction) {
+			fname, val := interpFieldStore(in)
+			if fname != name {
+				return
+			}
+			if f, base := loadedField(val); f != nil && isNamed(deref(base.Type()), modPath+"/interp", "Config") {
+				switch f.Name() {
+				case "Output":
+					role = "output"
+				case "Error":
+					role = "errorOutput"
+				}
+			}
+		})
+	}
+	return role
+}
+
+// fieldHoldsOwnBuffer: some store to the interpreter field carries a buffered writer built in package interp.
+func fieldHoldsOwnBuffer(c *Ctx, name string) token.Pos {
+	pos := token.NoPos
+	for _, fn := range c.srcFuncs("interp") {
+		allInstrs(fn, func(in ssa.Instruction) {
+			fname, val := interpFieldStore(in)
+			if fname != name {
+				return
+			}
+			v := val
+			for d := 0; d < 3; d++ {
+				switch x := v.(type) {
+				case *ssa.MakeInterface:
+					v = x.X
+					continue
+				case *ssa.ChangeInterface:
+					v = x.X
+					continue
+				}
+				break
+			}
+			if call, ok := v.(*ssa.Call); ok {
+				if f := calleeObj(call); f != nil && (funcFullName(f) == "bufio.NewWriterSize" || funcFullName(f) == "bufio.NewWriter") {
+					pos = in.Pos()
+				}
+			}
+		})
+	}
+	return pos
 }
